@@ -35,12 +35,15 @@ def run(tier, seed, extra=None):
         "growth under a pending fork) are what the fp stream measures",
         "footprint probe: a never-cancelled context.Context whose Done() (polled once per VM instruction) samples VerifFootprint of the "
         "live iterator; peak over every instruction of the run at loop count n and 8n; oracle: peak(8n) <= peak(n) + 2 (values: + 4) per component",
+        "coq/c01vm (other slice) is the concrete VM/compiler model for fragment F; the vmf stream ties it to the implementation for the "
+        "forms of c20/VMForms.v: instruction list (VerifDumpCode) = compile(AST) = compile(the Coq term of the theorem), and the "
+        "per-instruction sequence (len forks, stack depth, scope depth, len values) + emitted values of the implementation = the model's, exactly",
         "'tail position' = the self call is reached with no fork pending above the frame (hypothesis of tailcall_frame_reuse); forms whose "
         "call follows a pending choice point (try, ?, label, first(..), left of //, left of comma) are measured and recorded, not judged",
     ]
     c.prove(PROPS)
     exe_h, hlog = V.build_harness("c20")
-    st_fp, st_stk, pend = {}, {}, []
+    st_fp, st_stk, st_vmf, pend = {}, {}, {}, []
     if exe_h is None:
         c.broken_correspondence("harness-build", None, V.tail(hlog, 40))
     else:
@@ -58,6 +61,18 @@ def run(tier, seed, extra=None):
                     for line, verdict in V.compare_model(c, exe_m, cases, "c20stk")[:10]:
                         # impl != Stack.v: the theorems are about a stale model; try to turn it into a property violation
                         c.broken_correspondence("c20stk", line[:1500], "Stack.v verdict: " + verdict[:400])
+            # --- the forms of coq/c20/VMForms.v on the concrete VM model (coq/c01vm): compiled code and per-instruction footprint
+            if not extra:
+                rc, out, cases, st_vmf = V.run_harness("c20", "vmf", seed, 6 if tier == "quick" else 300, tier, name="c20vmf")
+                if rc != 0:
+                    c.broken_correspondence("harness-run vmf", None, V.tail(out, 40))
+                else:
+                    for line, verdict in V.compare_model(c, exe_m, cases, "c20vmf")[:10]:
+                        if "exceeds-certified-bound" in verdict:
+                            c.failing_input("implementation footprint exceeds the bound proved for the compiled code of this form",
+                                            line[:600], verdict[:300])
+                        else:
+                            c.broken_correspondence("c20vmf", line[:1500], "c01vm VM / compile model verdict: " + verdict[:600])
             # --- footprint at n and 8n
             ngen = 50 if tier == "quick" else 1500   # generated tail-recursive definitions
             rc, out, cases, st_fp = V.run_harness("c20", "fp", seed, ngen, tier, extra=extra, name="c20fp")
@@ -86,7 +101,7 @@ def run(tier, seed, extra=None):
             "definitions) + seeded generated tail-recursive definitions (guard form x step x nesting), each run at n and 8n with the peak "
             "footprint sampled at every instruction; stk: random operation sequences (3..72 ops, with and without pops of the empty stack); "
             "distinct = distinct case lines")
-    return c.finish(rule, extra_cov=dict(harness_stats_fp=st_fp, harness_stats_stk=st_stk,
+    return c.finish(rule, extra_cov=dict(harness_stats_fp=st_fp, harness_stats_stk=st_stk, harness_stats_vmf=st_vmf,
                                          informational_pending_choice_point_forms=pend))
 
 
